@@ -39,7 +39,7 @@ MANIFEST = {
             "iteration of Core's loop for every state and ALL 256 opcode values incl. CHECKSIG/CHECKSIGVERIFY/CHECKMULTISIG/CHECKMULTISIGVERIFY "
             "(sigdecode_der_lax = Core's lax parser; parse_and_check_signature_blob = CheckSignatureEncoding; checksigs = Core's matching loop "
             "for all m <= n by induction on the signature and key lists; NULLDUMMY, NULLFAIL, op-count contribution of the key count; "
-            "_delete_signature = FindAndDelete on every script code whose instructions decode); eval_script = EvalScript (verdict and final "
+            "_delete_signature = FindAndDelete on every script code); eval_script = EvalScript (verdict and final "
             "stack) for EVERY script, decodable or not, on stacks of items within 520 bytes (C03_model_eval_eq); check_solution = VerifyScript "
             "for every scriptSig, scriptPubKey, witness, flag set, tx context with no hypothesis but ChkWF (C03_model_verify_eq: SIGPUSHONLY, "
             "P2SH, witness v0 rules, 520-byte items, malleation rules, upgradable versions, CLEANSTACK, WITNESS_UNEXPECTED).",
